@@ -6,6 +6,7 @@ import (
 	"fmt"
 	"go/token"
 	"go/types"
+	"sort"
 	"strings"
 
 	"golang.org/x/tools/go/ssa"
@@ -1787,5 +1788,158 @@ func ruleBufForward(c *Ctx) {
 	}
 	if n < 1 {
 		c.Undecided("BUF-FORWARD", "instance-count", token.NoPos, "no store to BlockParser.buf found")
+	}
+}
+
+// ---------------------------------------------------------------------------------------------
+// SCAN-START: the search for the next line ending never starts behind a carriage return that is still waiting for
+// its look-ahead byte.
+
+func ruleScanStart(c *Ctx) {
+	c.Rule("SCAN-START", "In the reader function (the one that calls io.Reader.Read), the search for the next line ending (bytes.IndexAny over a cut-set containing CR and LF) starts at a position that is either fixed for the whole refill loop (a parser field the loop does not store, such as the parse cursor) or, if it is carried round the loop, is only ever advanced to the position of the line-ending byte just found, or past the searched bytes on the edge on which nothing was found. Advancing it unconditionally to the end of the buffer before a refill skips a carriage return that is still waiting for its look-ahead byte: with a lone CR as the last byte of a read, the line ending is never seen again.")
+	p := c.P
+	n := 0
+	for _, fn := range p.Funcs {
+		var read ssa.Instruction
+		eachInstr(fn, func(in ssa.Instruction) {
+			if _, ok := isInvokeOf(in, "Read"); ok {
+				read = in
+			}
+		})
+		if read == nil {
+			continue
+		}
+		var loop *natLoop
+		for _, l := range naturalLoops(fn) {
+			l := l
+			if l.body[read.Block()] && (loop == nil || len(l.body) < len(loop.body)) {
+				loop = &l
+			}
+		}
+		if loop == nil {
+			continue
+		}
+		eachInstr(fn, func(in ssa.Instruction) {
+			call, ok := in.(*ssa.Call)
+			if !ok || !loop.body[call.Block()] {
+				return
+			}
+			f := call.Call.StaticCallee()
+			if f == nil || f.Pkg == nil || f.Pkg.Pkg.Path() != "bytes" || f.Name() != "IndexAny" {
+				return
+			}
+			set, ok := constString(call.Call.Args[1])
+			if !ok || !strings.Contains(set, "\r") || !strings.Contains(set, "\n") {
+				return
+			}
+			sl, ok := call.Call.Args[0].(*ssa.Slice)
+			if !ok {
+				return
+			}
+			n++
+			key := fmt.Sprintf("%s:search#%d", shortFuncName(fn), n)
+			L := sl.Low
+			if L == nil {
+				c.OK("SCAN-START", key, call.Pos(), "the whole buffer is searched")
+				return
+			}
+			// fixed for the loop: a field load with no store to that field inside the loop
+			if ld, isLd := L.(*ssa.UnOp); isLd && ld.Op == token.MUL {
+				if fa, isFA := ld.X.(*ssa.FieldAddr); isFA {
+					stored := false
+					for b := range loop.body {
+						for _, x := range b.Instrs {
+							if st, ok := x.(*ssa.Store); ok {
+								if fa2, ok := st.Addr.(*ssa.FieldAddr); ok && fa2.Field == fa.Field && sameValue(fa2.X, fa.X) {
+									stored = true
+								}
+							}
+						}
+					}
+					c.Check(!stored, "SCAN-START", key, call.Pos(), "the search starts at a parser field that the refill loop itself moves")
+					return
+				}
+			}
+			ph, isPhi := L.(*ssa.Phi)
+			if !isPhi || !loop.body[ph.Block()] {
+				// defined outside the loop: fixed
+				if li, ok := L.(ssa.Instruction); ok && loop.body[li.Block()] {
+					c.Undecided("SCAN-START", key, call.Pos(), "search start is computed inside the loop in an unrecognised way: "+L.String())
+					return
+				}
+				c.OK("SCAN-START", key, call.Pos(), "search start is fixed for the refill loop")
+				return
+			}
+			// loop-carried: every value flowing in from inside the loop
+			notFoundEdge := func(blk *ssa.BasicBlock) bool {
+				for _, g := range fn.Blocks {
+					iff := blockIf(g)
+					if iff == nil {
+						continue
+					}
+					bo, ok := iff.Cond.(*ssa.BinOp)
+					if !ok || bo.X != ssa.Value(call) {
+						continue
+					}
+					k, isC := constInt(bo.Y)
+					if !isC {
+						continue
+					}
+					// which edge means "result < 0"
+					idx := -1
+					switch {
+					case bo.Op == token.GEQ && k == 0, bo.Op == token.GTR && k == -1, bo.Op == token.NEQ && k == -1:
+						idx = 1
+					case bo.Op == token.LSS && k == 0, bo.Op == token.EQL && k == -1, bo.Op == token.LEQ && k == -1:
+						idx = 0
+					}
+					if idx >= 0 && (edgeDominates(g, idx, blk)) {
+						return true
+					}
+				}
+				return false
+			}
+			isFound := func(v ssa.Value) bool {
+				// L + result (the position of the byte found), possibly with the operands swapped
+				bo, ok := v.(*ssa.BinOp)
+				if !ok || bo.Op != token.ADD {
+					return false
+				}
+				return (bo.X == L && bo.Y == ssa.Value(call)) || (bo.Y == L && bo.X == ssa.Value(call))
+			}
+			var bad []string
+			seen := map[[2]interface{}]bool{}
+			var chk func(v ssa.Value, from *ssa.BasicBlock, d int)
+			chk = func(v ssa.Value, from *ssa.BasicBlock, d int) {
+				k := [2]interface{}{v, from}
+				if seen[k] || d > 8 {
+					return
+				}
+				seen[k] = true
+				if v == ssa.Value(ph) || isFound(v) {
+					return
+				}
+				if inner, ok := v.(*ssa.Phi); ok && loop.body[inner.Block()] && inner != ph {
+					for i, e := range inner.Edges {
+						chk(e, inner.Block().Preds[i], d+1)
+					}
+					return
+				}
+				if notFoundEdge(from) {
+					return
+				}
+				bad = append(bad, describeValue(v))
+			}
+			for i, pr := range ph.Block().Preds {
+				if loop.body[pr] {
+					chk(ph.Edges[i], pr, 0)
+				}
+			}
+			sort.Strings(bad)
+			c.Check(len(bad) == 0, "SCAN-START", key, call.Pos(), "the search start is advanced, on a path that may hold a carriage return still waiting for its look-ahead byte, to "+strings.Join(bad, ", "))
+		})
+	}
+	if n < 1 {
+		c.Undecided("SCAN-START", "instance-count", token.NoPos, "no search for line endings found in the reader function")
 	}
 }
